@@ -150,7 +150,7 @@ def metamorphic_h(ctx, name, cop, before, after, exc):
         ok_pre = n1 in before[3].get(e1, ()) and n2 in before[3].get(e2, ())
         ctx.check(ok_pre, ("move", name, "accepted-non-member"), repr(cop))
         touched = (e1, e2)
-        if ok_pre and e1 != e2 and n1 != n2:
+        if ok_pre and nets.freeze_val(e1) != nets.freeze_val(e2) and n1 != n2:
             exp1 = (before[3][e1] - {n1}) | {n2}
             exp2 = (before[3][e2] - {n2}) | {n1}
             ctx.check(after[3][e1] == exp1 and after[3][e2] == exp2, ("move", name, "wrong-result"), "%r: %r %r" % (cop, after[3][e1], after[3][e2]))
@@ -161,11 +161,12 @@ def metamorphic_h(ctx, name, cop, before, after, exc):
             ctx.check(len(touched) <= 2, ("move", name, "more-than-two-edges-changed"), repr(cop))
         else:
             touched = (e1, e2)
-            if e1 != e2:
+            if nets.freeze_val(e1) != nets.freeze_val(e2):
                 b1, b2, a1, a2 = before[3][e1], before[3][e2], after[3][e1], after[3][e2]
                 ctx.check((a1 | a2) == (b1 | b2) and (b1 & b2) <= (a1 & a2), ("move", name, "nodes-not-redistributed"), "%r: %r %r" % (cop, a1, a2))
+    touched_keys = {nets.freeze_val(t) for t in touched}  # a tuple ID compared with a numpy integer would broadcast
     for e in before[3]:
-        if e not in touched:
+        if nets.freeze_val(e) not in touched_keys:
             ctx.check(before[3][e] == after[3][e], ("move", name, "other-edge-changed"), "%r edge %r" % (cop, e))
 
 
